@@ -209,7 +209,7 @@ CHECKS['C17'] = dict(
         'in-process on 6 generated tables x CSV and parquet x ~20 flag sets give the same constraints (apart from creation metadata), '
         'pass/failure counts and detection files as the library on load_df(file); discovered constraints verify against their file; '
         'missing inputs / constraints files, unknown and contradictory flags exit non-zero and leave no output; 3 subprocess runs.',
-   note='Trusted: argparse, pandas readers/writers. The PandasDiscoverer/Verifier/Detector front-ends and discover_df_from_file are proved to hand the translated flags to the library call unchanged; extension dispatch is bounded only.',
+   note='Trusted: argparse, pandas readers/writers. The PandasDiscoverer/Verifier/Detector front-ends and discover_df_from_file are proved to hand the translated flags to the library call unchanged; load_df is proved to give each reader the path it is meant for (parquet reader iff the extension is .parquet in any case; load_metadata only ever a metadata path; CSV arguments from that metadata), for inputs that name a data file; the command-line dispatch on the extension is bounded only.',
    technique='contract-based deductive verification of the flag translators + bounded runtime comparison of CLI and library',
    design_ref='DESIGN.md 5 C17')
 
